@@ -63,7 +63,7 @@ def run(rep, idx, tier):
     frep = Report("C19", tier)
     rules(frep, fx, fixture=True)
     fired = {o.rule for o in frep.by_status("violated")}
-    for r in ("C19.1", "C19.2", "C19.3", "C19.4", "C19.6", "C19.8", "C19.9", "C19.10", "C19.11"):
+    for r in ("C19.1", "C19.2", "C19.3", "C19.4", "C19.6", "C19.8", "C19.9", "C19.10", "C19.11", "C19.22"):
         if r in fired:
             rep.ok(r, "sa/fixtures/c19", "positive fixture is flagged", "the rule fires on the committed bad example", nontrivial=False)
         else:
@@ -125,6 +125,9 @@ def rules(rep, idx, fixture):
         rep.require("C19.20", 1)
         _glue16.view_safe_operations(rep, "C19.20", idx)
         division_after_validation(rep, idx)
+    rep.require("C19.22", 1) if not fixture else None
+    from . import glue as _glue22
+    _glue22.textual_memo_keys(rep, "C19.22", idx)
     if not fixture:
         from . import glue as _glue
         _glue.param_refusals(rep, "C19.12", idx)
@@ -616,9 +619,45 @@ def identity_comparisons(rep, idx, rule="C19.11", classes=None):
                                 return True
                         return False
                     if not (singleton(left) or singleton(right)):
-                        arith = any(isinstance(e, (ast.BinOp, ast.Subscript, ast.Call)) or
-                                    (isinstance(e, ast.Constant) and isinstance(e.value, (int, str, tuple)) and not isinstance(e.value, bool))
-                                    for e in (left, right))
+                        VALUE_CALLS = ("len", "int", "str", "tuple", "sum", "max", "min", "abs", "repr", "format", "ceil_log2", "exact_log2",
+                                       "log2", "round", "ord", "chr", "hash", "frozenset", "bytes", "float", "divmod", "pow")
+                        VALUE_METHODS = ("count", "index", "bit_length", "join", "upper", "lower", "strip", "format", "find")
+
+                        def evidently_value(e):
+                            if isinstance(e, ast.BinOp):
+                                return True
+                            if isinstance(e, ast.Constant) and isinstance(e.value, (int, str, tuple)) and not isinstance(e.value, bool):
+                                return True
+                            if isinstance(e, (ast.Tuple, ast.JoinedStr)):
+                                return True
+                            if isinstance(e, ast.Call):
+                                if isinstance(e.func, ast.Name) and e.func.id in VALUE_CALLS:
+                                    return True
+                                if isinstance(e.func, ast.Attribute) and e.func.attr in VALUE_METHODS:
+                                    return True
+                            if isinstance(e, ast.Subscript) and isinstance(e.slice, ast.Slice):
+                                return True                 # a slice is a fresh tuple / string / list
+                            if isinstance(e, ast.Attribute) and e.attr in ("start", "stop", "step", "width", "addr_width", "data_width",
+                                                                           "granularity", "alignment", "size", "name"):
+                                return True
+                            return False
+
+                        def object_ref(e):
+                            # an attribute chain on self / a parameter, or a local bound only to such chains: a reference to an object
+                            if isinstance(e, ast.Attribute) and not evidently_value(e):
+                                return True
+                            if isinstance(e, ast.Name):
+                                bs = [s_.value for s_ in ast.walk(f.node) if isinstance(s_, ast.Assign) and
+                                      any(isinstance(t, ast.Name) and t.id == e.id for t in s_.targets)]
+                                return bool(bs) and all(isinstance(b_, ast.Attribute) and not evidently_value(b_) for b_ in bs)
+                            return False
+                        if (object_ref(left) or object_ref(right)) and not (evidently_value(left) or evidently_value(right)):
+                            rep.ok(rule, f.site, f"`{ast.unparse(x)[:60]}`", "identity of an object reference (a map, a bus, a signal) kept by the "
+                                   "instance: that is what `is` asks", nontrivial=False)
+                            left = right
+                            continue
+                        arith = any(evidently_value(e) or (isinstance(e, ast.Subscript) and not object_ref(left) and not object_ref(right)) or
+                                    isinstance(e, ast.Call) for e in (left, right))
                         what = f"`{ast.unparse(x)[:60]}`"
                         # names bound from arithmetic / subscripts in the same function are values, too
                         def value_name(e):
@@ -759,6 +798,23 @@ def _iter_is(it, source_text, f):
                 isinstance(n.targets[0], ast.Name) and n.targets[0].id == it.id]
         if len(defs) == 1:
             return _iter_is(defs[0].value, source_text, f) if not isinstance(defs[0].value, ast.Name) else ast.unparse(defs[0].value) == source_text
+    # a memo of the collection kept on the instance: every value ever stored in self.<memo> is None or a sorted / listed copy of the
+    # collection, and the collection never loses an element -- an element of the memo is (still) an element of the collection
+    if isinstance(it, ast.Attribute) and isinstance(it.value, ast.Name) and it.value.id == "self" and f.cls is not None and \
+            source_text.startswith("self."):
+        stores = [n for fs in f.cls.methods.values() for g in fs for n in ast.walk(g.node)
+                  if isinstance(n, (ast.Assign, ast.AugAssign, ast.AnnAssign)) and
+                  any(isinstance(t, ast.Attribute) and isinstance(t.value, ast.Name) and t.value.id == "self" and t.attr == it.attr
+                      for t in (n.targets if isinstance(n, ast.Assign) else [n.target]))]
+        copies = [n for n in stores if not (isinstance(n, ast.Assign) and isinstance(n.value, ast.Constant) and n.value.value is None)]
+        mutated = any(isinstance(n, ast.Call) and isinstance(n.func, ast.Attribute) and ast.unparse(n.func.value) in (source_text, ast.unparse(it)) and
+                      n.func.attr in ("remove", "discard", "pop", "clear", "difference_update", "intersection_update", "append", "insert", "extend")
+                      and not (ast.unparse(n.func.value) == source_text and n.func.attr in ("append", "insert", "extend"))
+                      for fs in f.cls.methods.values() for g in fs for n in ast.walk(g.node))
+        if copies and not mutated and all(isinstance(n, ast.Assign) and isinstance(n.value, ast.Call) and isinstance(n.value.func, ast.Name) and
+                                          n.value.func.id in ("sorted", "list", "tuple") and n.value.args and
+                                          ast.unparse(n.value.args[0]) == source_text for n in copies):
+            return True
     return False
 
 
@@ -1120,6 +1176,37 @@ def _rebuilt_first(f, attr):
     return False
 
 
+def _memo_idiom(f, attr):
+    """`if <test that reads self.attr>: V = <self.attr or a part of it>` / `else: V = E; [if G:] self.attr = V or (..., V, ...)`:
+    the local V is what the rest of the function uses, the attribute only ever holds what was computed for V.  Returns V's name."""
+    def is_attr(e):
+        return isinstance(e, ast.Attribute) and isinstance(e.value, ast.Name) and e.value.id == "self" and e.attr == attr
+    for st in ast.walk(f.node):
+        if not (isinstance(st, ast.If) and st.orelse and any(is_attr(x) for x in ast.walk(st.test))):
+            continue
+        for reuse, compute in ((st.body, st.orelse), (st.orelse, st.body)):
+            took = [s_ for s_ in reuse if isinstance(s_, ast.Assign) and len(s_.targets) == 1 and isinstance(s_.targets[0], ast.Name) and
+                    any(is_attr(x) for x in ast.walk(s_.value)) and
+                    (is_attr(s_.value) or (isinstance(s_.value, ast.Subscript) and is_attr(s_.value.value)))]
+            if len(took) != 1 or len(reuse) != 1:
+                continue
+            v = took[0].targets[0].id
+            binds = [s_ for s_ in compute if isinstance(s_, ast.Assign) and len(s_.targets) == 1 and isinstance(s_.targets[0], ast.Name) and
+                     s_.targets[0].id == v]
+            stores = [s_ for b_ in compute for s_ in ast.walk(b_) if isinstance(s_, ast.Assign) and any(is_attr(t) for t in s_.targets)]
+            if len(binds) != 1 or not stores or any(is_attr(x) for x in ast.walk(binds[0].value)):
+                continue
+            ok = all((isinstance(s_.value, ast.Name) and s_.value.id == v) or
+                     (isinstance(s_.value, ast.Tuple) and any(isinstance(e, ast.Name) and e.id == v for e in s_.value.elts))
+                     for s_ in stores)
+            # no other store or read of the attribute anywhere else in the function
+            inside = {id(x) for x in ast.walk(st)}
+            elsewhere = [x for x in ast.walk(f.node) if is_attr(x) and id(x) not in inside]
+            if ok and not elsewhere:
+                return v
+    return None
+
+
 def _none_guarded(idx, sid, attr):
     """Is the writing statement inside `if self.<attr> is None:`?"""
     site, _, ln = sid.rpartition(":")
@@ -1205,6 +1292,14 @@ def carried_state(rep, idx, ef, els):
                 continue                                                # monotone cache idiom
             if len(loc[2]) == 1 and _rebuilt_first(f, attr):
                 continue                                                # every elaboration starts by binding a new object there
+            memo = _memo_idiom(f, attr) if len(loc[2]) == 1 else None
+            if memo:
+                found = True
+                rep.unk("C19.1", f.site, f"self.{attr}: a memo of `{memo}`, filled and reused by elaborate()",
+                        f"the value this elaboration computes for `{memo}` is kept in self.{attr} and a later elaboration takes it from there "
+                        "instead of computing it again; whether the kept value is always the one a fresh computation would give (nothing it "
+                        "depends on can change in between) is not decided")
+                continue
             found = True
             where = ".".join((loc[1],) + loc[2])
             short = lambda x: x.split("::")[-1]
@@ -2097,6 +2192,9 @@ def _dedupe_evidence0(idx, f, fixed):
                 any(isinstance(p_, ast.Call) and isinstance(p_.func, ast.Name) and p_.func.id == "list" and p_.args and
                     isinstance(p_.args[0], (ast.ListComp, ast.GeneratorExp)) and _joins_path(idx, g, p_.args[0].elt) for p_ in parts)
             names = [p_.id for p_ in parts if isinstance(p_, ast.Name)]
+            # list(L) / tuple(L) / sorted(L): a copy of the list L
+            names += [p_.args[0].id for p_ in parts if isinstance(p_, ast.Call) and isinstance(p_.func, ast.Name) and
+                      p_.func.id in ("list", "tuple", "sorted") and len(p_.args) == 1 and isinstance(p_.args[0], ast.Name)]
             for nm in names:
                 if len(binds.get(nm, ())) == 1:
                     c2, k2 = names_list(binds[nm][0])
@@ -2197,10 +2295,36 @@ def computed_submodule_names(rep, idx):
                     not isinstance(st.targets[0].slice, ast.Constant):
                 sites.append((f, st))
     n = 0
+    LOSSY = ("sub", "subn", "replace", "lower", "upper", "casefold", "strip", "lstrip", "rstrip", "translate", "title", "capitalize",
+             "swapcase", "expandtabs", "removeprefix", "removesuffix", "split", "partition")
     for f, st in sites:
         n += 1
-        verdict = _exact_unique_name(idx, f, st)
         what = f"m.submodules[{ast.unparse(st.targets[0].slice)[:50]}] gets a name no other submodule of the module has"
+        # the registered name is the tested name: a transformation applied after the uniqueness test (characters replaced, case
+        # folded, the text cut) maps distinct names to one again -- unless the tested list holds the transformed names, too
+        key = st.targets[0].slice
+        if isinstance(key, ast.Name):
+            bs = [b.value for b in ast.walk(f.node) if isinstance(b, ast.Assign) and len(b.targets) == 1 and
+                  isinstance(b.targets[0], ast.Name) and b.targets[0].id == key.id]
+            if len(bs) == 1:
+                key = bs[0]
+        lossy = [c_ for c_ in ast.walk(key) if isinstance(c_, ast.Call) and isinstance(c_.func, ast.Attribute) and c_.func.attr in LOSSY and
+                 any(_joins_path(idx, f, x) for x in ast.walk(c_) if isinstance(x, (ast.Call, ast.IfExp)) and x is not c_)] + \
+                [c_ for c_ in ast.walk(key) if isinstance(c_, ast.Subscript) and isinstance(c_.slice, ast.Slice) and
+                 any(_joins_path(idx, f, x) for x in ast.walk(c_.value) if isinstance(x, (ast.Call, ast.IfExp)))]
+        if lossy:
+            how = ast.unparse(lossy[0].func) if isinstance(lossy[0], ast.Call) else "a slice"
+            tested_same = any(isinstance(x, (ast.ListComp, ast.GeneratorExp, ast.SetComp)) and
+                              any(isinstance(y, ast.Call) and isinstance(y.func, ast.Attribute) and isinstance(lossy[0], ast.Call) and
+                                  y.func.attr == lossy[0].func.attr for y in ast.walk(x.elt))
+                              for g in _closure(idx, f) for x in ast.walk(g.node))
+            if not tested_same:
+                rep.bad("C19.15", f.site, what, f"the joined name goes through `{how}(...)` before it is used as the submodule name, and no list of names "
+                        "that a uniqueness test looks at is transformed the same way: names that differ only in what the transformation "
+                        "discards (`irq.en` and `irq-en`, `A` and `a`) are distinct for the test and equal for Module, which raises "
+                        "NameError('Submodule named ... already exists') at elaboration", line=st.lineno)
+                continue
+        verdict = _exact_unique_name(idx, f, st)
         if verdict[0] in ("ok", "bad"):
             (rep.ok if verdict[0] == "ok" else rep.bad)("C19.15", f.site, what, verdict[1], **({"line": st.lineno} if verdict[0] == "bad" else {}))
             continue
